@@ -14,7 +14,8 @@
       zcash_client_sqlite/src/wallet/{sapling,orchard}.rs (mark_*_note_spent, put_received_note)
       zcash_client_sqlite/src/wallet/scanning.rs          (scan_complete / update_chain_tip / trim: only their
                                                            effect on the chain tip = max scan-queue end - 1)
-    Trial decryption is abstracted to the generator's ground truth ([o_owner]); the note
+    Trial decryption and nullifier derivation are abstracted to the generator's ground truth
+    ([o_owner], [o_nf]); the note
     commitment trees (C06) and the scan queue priorities (C15) are not modelled: the height a
     rewind actually reaches and the availability of the summary are inputs of the model.
     No proofs in this file. *)
@@ -28,7 +29,8 @@ Local Open Scope N_scope.
 Definition key := (N * N)%type.
 Definition key_eqb (a b : key) : bool := N.eqb (fst a) (fst b) && N.eqb (snd a) (snd b).
 
-Record out := mkOut { o_owner : option N; o_pool : N; o_value : N; o_nf : N }.
+(** [o_idx]: index of the output among the outputs (actions) of its pool in the transaction *)
+Record out := mkOut { o_owner : option N; o_pool : N; o_value : N; o_nf : N; o_idx : N }.
 Record tx := mkTx { t_id : N; t_spends : list key; t_outs : list out }.
 Record block := mkBlock { b_height : N; b_hash : N; b_prev : N; b_txs : list tx }.
 
@@ -38,8 +40,9 @@ Definition o_key (o : out) : key := (o_pool o, o_nf o).
 
 (** row of [transactions] *)
 Record txrow := mkTxRow { x_id : N; x_mined : option N; x_expiry : option N; x_minobs : N }.
-(** row of [*_received_notes] joined with [*_received_note_spends] *)
-Record note := mkNote { n_key : key; n_acct : N; n_value : N; n_recv : N; n_spent : list N }.
+(** row of [*_received_notes] joined with [*_received_note_spends]; the table's key is
+    (pool, receiving transaction, output index); the nullifier column [n_key] is UNIQUE *)
+Record note := mkNote { n_key : key; n_acct : N; n_value : N; n_recv : N; n_idx : N; n_spent : list N }.
 (** row of [tx_locator_map]: (height, tx index, txid) *)
 Definition loc := (N * N * N)%type.
 
@@ -239,7 +242,7 @@ Fixpoint mark_spent (txs : list txrow) (k : key) (txid : N) (l : list note) : op
       if key_eqb (n_key n) k then
         if existsb (fun t => negb (N.eqb t txid) && row_mined txs t) (n_spent n) then None
         else Some ((if memN txid (n_spent n) then n
-                    else mkNote (n_key n) (n_acct n) (n_value n) (n_recv n) (n_spent n ++ [txid])) :: l')
+                    else mkNote (n_key n) (n_acct n) (n_value n) (n_recv n) (n_idx n) (n_spent n ++ [txid])) :: l')
       else match mark_spent txs k txid l' with
            | Some r => Some (n :: r)
            | None => None
@@ -262,14 +265,21 @@ Definition add_spender (sp : option N) (l : list N) : list N :=
   | None => l
   end.
 
-(** [put_received_note]: upsert (model key: the nullifier), plus the spend row for [spent_in] *)
-Fixpoint put_note (k : key) (acct value recv : N) (sp : option N) (l : list note) : list note :=
+(** [put_received_note]: upsert ON CONFLICT (transaction_id, output_index) of the pool's table:
+    the row of the same output is updated — its nullifier is REPLACED by the one computed for
+    the block now scanned (a Sapling nullifier depends on the note's position in the commitment
+    tree, so an output re-mined elsewhere after a reorg comes back under another nullifier) —
+    and keeps its spend rows; plus the spend row for [spent_in]. *)
+Definition id_match (n : note) (k : key) (recv idx : N) : bool :=
+  N.eqb (fst (n_key n)) (fst k) && N.eqb (n_recv n) recv && N.eqb (n_idx n) idx.
+
+Fixpoint put_note (k : key) (acct value recv idx : N) (sp : option N) (l : list note) : list note :=
   match l with
-  | [] => [mkNote k acct value recv (add_spender sp [])]
+  | [] => [mkNote k acct value recv idx (add_spender sp [])]
   | n :: l' =>
-      if key_eqb (n_key n) k
-      then mkNote k acct value recv (add_spender sp (n_spent n)) :: l'
-      else n :: put_note k acct value recv sp l'
+      if id_match n k recv idx
+      then mkNote k acct value recv idx (add_spender sp (n_spent n)) :: l'
+      else n :: put_note k acct value recv idx sp l'
   end.
 
 Fixpoint find_loc (h i : N) (l : list loc) : option N :=
@@ -295,7 +305,7 @@ Fixpoint put_outputs (nfm : list (key * (N * N))) (locs : list loc) (recv : N) (
       let d := detect_spend nfm locs (o_key o) in
       let txs' := match d with Some (t, h) => put_tx_meta t h txs | None => txs end in
       let sp := match d with Some (t, _) => Some t | None => None end in
-      put_outputs nfm locs recv os' txs' (put_note (o_key o) (out_acct o) (o_value o) recv sp notes)
+      put_outputs nfm locs recv os' txs' (put_note (o_key o) (out_acct o) (o_value o) recv (o_idx o) sp notes)
   end.
 
 (** rows of one WalletTx of a block at height [h] *)
